@@ -22,7 +22,7 @@ fn dummy_expr() -> mimium_lang::interner::ExprNodeId {
     Expr::Literal(Literal::Int(0)).into_id_without_span()
 }
 
-fn build(d: &J) -> Value {
+pub(crate) fn build(d: &J) -> Value {
     let kids = || -> Vec<Value> {
         d["c"]
             .as_array()
@@ -70,7 +70,7 @@ fn build(d: &J) -> Value {
     }
 }
 
-fn describe(v: &Value) -> J {
+pub(crate) fn describe(v: &Value) -> J {
     match v {
         Value::ErrorV(_) => json!({"k":"ErrorV"}),
         Value::Unit => json!({"k":"Unit"}),
@@ -92,7 +92,7 @@ fn describe(v: &Value) -> J {
 }
 
 /// structural equality of two descriptions; Number payloads bit-exact
-fn same(a: &J, b: &J) -> bool {
+pub(crate) fn same(a: &J, b: &J) -> bool {
     if a["k"] != b["k"] {
         return false;
     }
@@ -131,6 +131,65 @@ pub fn run(spec: &J) -> J {
                         json!({"refused": false, "decoded": after, "equal": eq, "bytes": bytes.len()})
                     }
                 },
+            }
+        })
+        .collect();
+    J::Array(out)
+}
+
+
+// ------------------------------------------------------------------------------------------------
+// `mmdump bridge <spec.json>`: the host side of the dynamic-plugin macro bridge on the real crate.
+// spec: a list of invocations, each a list of value descriptions.  ONE closure obtained from
+// `DynPluginMacroInfo::get_fn` is invoked once per entry; the in-process `extern "C"` plugin function has the ABI and the
+// body `mimium-plugin-macros` generates (decode with deserialize_macro_args, call, encode with serialize_value) with the
+// method "return the tuple of all arguments".  result per invocation: {"returned":<description>,"equal":bool} | {"panic":..}
+// ------------------------------------------------------------------------------------------------
+unsafe extern "C" fn echo_macro(
+    _instance: *mut std::ffi::c_void,
+    args_ptr: *const u8,
+    args_len: usize,
+    out_ptr: *mut *mut u8,
+    out_len: *mut usize,
+) -> i32 {
+    unsafe {
+        let bytes = std::slice::from_raw_parts(args_ptr, args_len);
+        let args = match mimium_lang::runtime::ffi_serde::deserialize_macro_args(bytes) {
+            Ok(a) => a,
+            Err(_) => return -1,
+        };
+        let result = Value::Tuple(args.into_iter().map(|(v, _ty)| v).collect());
+        let result_bytes = match serialize_value(&result) {
+            Ok(b) => b,
+            Err(_) => return -2,
+        };
+        let boxed = result_bytes.into_boxed_slice();
+        *out_len = boxed.len();
+        *out_ptr = Box::into_raw(boxed) as *mut u8;
+        0
+    }
+}
+
+pub fn run_bridge(spec: &J) -> J {
+    use mimium_lang::plugin::MacroFunction;
+    use mimium_lang::plugin::loader::{DynPluginMacroInfo, PluginInstance};
+    let ty = Type::Primitive(PType::Numeric).into_id();
+    let instance = std::ptr::NonNull::<PluginInstance>::dangling().as_ptr();
+    let info = unsafe { DynPluginMacroInfo::new("echo".to_symbol(), ty, instance, echo_macro) };
+    let f = info.get_fn();
+    let invs = spec.as_array().cloned().unwrap_or_default();
+    let out: Vec<J> = invs
+        .iter()
+        .map(|inv| {
+            let vals: Vec<Value> = inv.as_array().map(|a| a.iter().map(build).collect()).unwrap_or_default();
+            let expect = describe(&Value::Tuple(vals.clone()));
+            let args: Vec<(Value, mimium_lang::interner::TypeNodeId)> = vals.into_iter().map(|v| (v, ty)).collect();
+            match crate::common::guarded(|| (f.borrow())(&args)) {
+                Err(p) => json!({"panic": p}),
+                Ok(r) => {
+                    let got = describe(&r);
+                    json!({"returned": got.clone(), "equal": same(&expect, &got)})
+                }
             }
         })
         .collect();
